@@ -5,7 +5,7 @@ import common
 from common import show_list, parse_list
 
 LEVEL = "proof"
-LEAN_PROPS = ["FastTicc.Props.C10"]
+LEAN_PROPS = ["FastTicc.Props.C10", "FastTicc.Props.FrontEnd"]
 LEAN_HELPERS = ["FastTicc.Proofs.Stack"]
 RULE = ("random series with T in [W, W+40], W in [1,12], N in [1,6], 1..6 series; cells are random 64-bit patterns "
         "viewed as float64 (NaN payloads, inf, -0.0) compared as integers; C/Fortran order, float32/int inputs "
